@@ -25,7 +25,7 @@ WHY = {
  'Channel_TouchMessage': 'TOUCH: pop, new deadline capped at delivery + max-msg-timeout, push back into BOTH map and queue',
  'Channel_pushInFlightMessage': 'one entry per id',
  'Channel_popInFlightMessage': 'pop checks the owner (client id)',
- 'Channel_processInFlightQueue': 'timeout scan: exit lock; every popped message is re-queued unconditionally; the owner counter moves only if the owner is still attached',
+ 'Channel_processInFlightQueue': 'timeout scan: exit lock; every popped message whose deadline (re-read after the pop: a TOUCH may have landed since the peek) has passed is re-queued, any other goes back in flight; the owner counter moves only if the owner is still attached',
  'Channel_processDeferredQueue': 'deferred scan: exit lock; every popped message is re-queued',
  'Channel_flush': 'flush writes the hand-off queues, the memory queue, the in-flight set and the deferred set to the backend',
  'Channel_exit': 'exit: exclusive exit lock, then flush (close) or empty (delete)',
